@@ -315,18 +315,32 @@ Contexts == {"arg", "var", "paren", "neg"}
 
 Two63 == BNPow2(63)
 
-(* the case is a legal Go program whose output the property speaks about *)
-WF(s, ctx) ==
+(* everything the contract needs to know about a spelling, computed once *)
+An(s) ==
     LET k == Kind(s) IN
-    /\ ctx \in Contexts
-    /\ CASE k = "int"   -> IF ctx = "neg" THEN BNLe(IntValue(s), Two63) ELSE BNLt(IntValue(s), Two63)
-         [] k = "rune"  -> TRUE
-         [] k = "float" -> /\ ExpDigits(s) <= 4 /\ Finite(FloatValue(s))
-                           \* -x for an x that rounds to 0 is about constant arithmetic (Go has no negative zero constant)
-                           /\ (ctx = "neg" => ~RoundsToZero(FloatValue(s)))
-         [] k = "imag"  -> ctx # "neg" /\ ImagExpDigits(s) <= 4 /\ Finite(ImagValue(s))
-         [] k \in {"string", "raw"} -> ctx # "neg"
-         [] OTHER -> FALSE
+    [k |-> k,
+     v |-> CASE k = "int" -> IntValue(s)
+             [] k = "rune" -> BNFromInt(RuneValue(s))
+             [] k = "float" -> FloatValue(s)
+             [] k = "imag" -> ImagValue(s)
+             [] k = "string" -> StringValue(s)
+             [] k = "raw" -> RawValue(s)
+             [] OTHER -> <<>>,
+     xd |-> CASE k = "float" -> ExpDigits(s) [] k = "imag" -> ImagExpDigits(s) [] OTHER -> 0]
+
+(* the contexts in which the case is a legal Go program whose output the property speaks about *)
+DomCtx(a) ==
+    CASE a.k = "int"   -> IF BNLt(a.v, Two63) THEN Contexts ELSE IF a.v = Two63 THEN {"neg"} ELSE {}
+      [] a.k = "rune"  -> Contexts
+      [] a.k = "float" -> IF a.xd <= 4 /\ Finite(a.v)
+                          \* -x for an x that rounds to 0 is about constant arithmetic (Go has no negative zero constant)
+                          THEN (IF RoundsToZero(a.v) THEN Contexts \ {"neg"} ELSE Contexts)
+                          ELSE {}
+      [] a.k = "imag"  -> IF a.xd <= 4 /\ Finite(a.v) THEN Contexts \ {"neg"} ELSE {}
+      [] a.k \in {"string", "raw"} -> Contexts \ {"neg"}
+      [] OTHER -> {}
+
+WF(s, ctx) == ctx \in DomCtx(An(s))
 
 -----------------------------------------------------------------------------
 (* the contract: what a run printed for the case *)
@@ -346,19 +360,20 @@ FloatOK(v, wantNeg, neg, digs, exp) ==
     /\ DecChars(digs) /\ neg = wantNeg
     /\ LET m == Num(digs) IN CanonF64(m, exp) /\ Nearest(v, m, exp)
 
-Post(s, ctx, o) ==
-    LET k == Kind(s) IN
+PostA(a, ctx, o) ==
+    LET k == a.k IN
     /\ o.st = "ok"
     /\ CASE k \in {"int", "rune"} ->
-              LET v == IF k = "int" THEN IntValue(s) ELSE BNFromInt(RuneValue(s)) IN
-              /\ o.ty \in IntTypes /\ DecChars(o.digs) /\ Num(o.digs) = v
-              /\ o.neg = (ctx = "neg" /\ v # <<>>)
-         [] k = "float" -> o.ty = "float64" /\ FloatOK(FloatValue(s), ctx = "neg", o.neg, o.digs, o.exp)
+              /\ o.ty \in IntTypes /\ DecChars(o.digs) /\ Num(o.digs) = a.v
+              /\ o.neg = (ctx = "neg" /\ a.v # <<>>)
+         [] k = "float" -> o.ty = "float64" /\ FloatOK(a.v, ctx = "neg", o.neg, o.digs, o.exp)
          [] k = "imag" -> /\ o.ty = "complex128"
                           /\ o.digs = <<"0">> /\ o.exp = MinE /\ o.neg = FALSE
-                          /\ FloatOK(ImagValue(s), FALSE, o.neg2, o.digs2, o.exp2)
-         [] k = "string" -> o.ty = "string" /\ o.bytes = StringValue(s)
-         [] k = "raw" -> o.ty = "string" /\ o.bytes = RawValue(s)
+                          /\ FloatOK(a.v, FALSE, o.neg2, o.digs2, o.exp2)
+         [] k \in {"string", "raw"} -> o.ty = "string" /\ o.bytes = a.v
+         [] OTHER -> FALSE
+
+Post(s, ctx, o) == PostA(An(s), ctx, o)
 
 -----------------------------------------------------------------------------
 (* abstract identity of a case (class of spelling x context), for findings *)
